@@ -358,6 +358,57 @@ fn check_reject(s: &String, p: &mut Probe) -> Check {
     Ok(())
 }
 
+/// matrices with thousands of rows (no small generated matrix is like the codes the factory is used
+/// for): r x (r + 37) with row weight 3, r in {1025, 4097, 4098, 5003, 8190}; three frames each
+/// (weak wrong bits on the first rows, on the last rows, spread), limits 1 and 12; all 36 names
+fn big_cases(_t: Tier) -> Vec<(usize, u8)> {
+    [1025usize, 4097, 4098, 5003, 8190].iter().flat_map(|&r| (0..3u8).map(move |f| (r, f))).collect()
+}
+
+fn check_big(c: &(usize, u8), p: &mut Probe) -> Check {
+    let (r, f) = *c;
+    let n = r + 37;
+    let mut m = Mat::new(r, n);
+    for i in 0..r {
+        let mut cols = vec![i, (i * 7 + 3) % n, n - 1 - (i % 37)];
+        cols.sort();
+        cols.dedup();
+        for j in cols {
+            m.ones.push((i, j));
+        }
+    }
+    let hs = m.to_sparse();
+    // the all-zero codeword with a few weak wrong bits
+    let mut llrs = vec![3.5f64; n];
+    let wrong: Vec<usize> = match f {
+        0 => vec![0, 5, 11],
+        1 => vec![r - 1, r - 2, r - 7, n - 1],
+        _ => (0..9).map(|t| (t * (n / 9) + 4) % n).collect(),
+    };
+    for &j in &wrong {
+        llrs[j] = -0.75;
+    }
+    for name in NAMES {
+        let imp = name.parse::<DecoderImplementation>().map_err(|e| Fail::new("from_str", format!("{name}: {e}")))?;
+        for limit in [1usize, 12] {
+            let mut a = guarded(|| build_factory(&imp, hs.clone())).map_err(|e| Fail::new("panic", format!("{name}: the factory panicked on a {r} x {n} matrix: {e}")))?;
+            let mut b = build_direct(name, hs.clone()).unwrap();
+            let ra = guarded(|| a.decode(&llrs, limit)).map_err(|e| Fail::new("panic", format!("{name}: factory decoder panicked on a {r} x {n} matrix: {e}")))?;
+            let rb = guarded(|| b.decode(&llrs, limit)).map_err(|e| Fail::new("panic", format!("{name}: direct decoder panicked: {e}")))?;
+            p.inner += 1;
+            if ra != rb {
+                let ones = |x: &Result<ldpc_toolbox::decoder::DecoderOutput, ldpc_toolbox::decoder::DecoderOutput>| match x {
+                    Ok(o) => format!("Ok after {} iterations with {} ones", o.iterations, o.codeword.iter().filter(|&&b| b == 1).count()),
+                    Err(o) => format!("Err after {} iterations with {} ones", o.iterations, o.codeword.iter().filter(|&&b| b == 1).count()),
+                };
+                return Err(Fail::new("factory-mismatch-large-matrix", format!("{name} on a {r} x {n} matrix (row weight 3), weak wrong bits at {wrong:?}, limit {limit}: the factory-built decoder returns {}, the generic decoder built directly with the named arithmetic and schedule returns {}", ones(&ra), ones(&rb))));
+            }
+        }
+    }
+    p.nontrivial();
+    Ok(())
+}
+
 pub fn property() -> Property {
     Property {
         id: "C18",
@@ -384,6 +435,13 @@ pub fn property() -> Property {
                 strategy: wild_strategy,
                 check: check_wild,
                 health: &[("check-of-degree<=1", 0.30), ("non-finite-llr", 0.30)],
+            }),
+            Box::new(EnumSub {
+                name: "large-matrix",
+                rule: "matrices r x (r + 37) of row weight 3 with r = 1025, 4097, 4098, 5003, 8190 x three frames (the zero codeword with weak wrong bits on the first rows, on the last rows, spread over the frame) x limits 1 and 12 x the 36 names: the factory-built decoder returns exactly what the generic decoder built directly returns",
+                cases: big_cases,
+                check: check_big,
+                exhaustive: false,
             }),
             Box::new(EnumSub {
                 name: "separation",
